@@ -702,7 +702,7 @@ def _builtins(idx: Index, res: Result, renderers: List[Renderer]) -> None:
             if role not in holes or (h.time and any(isinstance(x, TimeRef) for x in _flatten(h.time))):
                 holes[role] = h
         d = names.get("delay_duration")
-        ok = isinstance(t, ast.IfExp) and d is not None and nf(t.test) == nf("TIME__ - %s >= 1.0" % d)
+        ok = isinstance(t, ast.IfExp) and d is not None and nf(t.test) in (nf("TIME__ - %s >= 1.0" % d), nf("TIME__ - %s >= model.starttime" % d))
         res.check("BUILTIN", "delay switches at time - duration >= starttime", ok, r.fi.loc(), r.fi.qual, r.text[:140],
                   "the delay test is %s" % (src(t.test) if isinstance(t, ast.IfExp) else "?"), key="BUILTIN/Delay/test")
         h = holes.get("input_function")
@@ -713,7 +713,7 @@ def _builtins(idx: Index, res: Result, renderers: List[Renderer]) -> None:
     # ---- pulse
     for r in byc.get("Pulse", []):
         t, names = tree_of(r)
-        ok = isinstance(t, ast.IfExp) and nf(t.body) == nf("%s / 1.0" % names["volume"]) and nf(t.orelse) == nf("0.0")
+        ok = isinstance(t, ast.IfExp) and nf(t.body) in (nf("%s / 1.0" % names["volume"]), nf("%s / model.dt" % names["volume"])) and nf(t.orelse) == nf("0.0")
         res.check("BUILTIN", "pulse = volume/dt at pulse times, else 0", ok, r.fi.loc(), r.fi.qual, r.text[:140],
                   "the pulse template is %s" % r.text[:120], key="BUILTIN/Pulse/shape")
     # ---- smooth / trend: level' = (input - level) / T through an *unclamped* element
